@@ -1,4 +1,4 @@
-package main
+package hxc26
 
 // Generator of CORE programs: exactly the language of coq/Interp/Core.v.
 // Every node renders twice: as shell source (for interp and bash) and as a Coq term
@@ -58,32 +58,32 @@ type node interface {
 	coq() string
 }
 
-type stmtN struct {
+type StmtN struct {
 	neg bool
 	c   node
 }
 
-func (s stmtN) src() string {
+func (s StmtN) Src() string {
 	if s.neg {
 		return "! " + s.c.src()
 	}
 	return s.c.src()
 }
-func (s stmtN) coq() string {
+func (s StmtN) Coq() string {
 	return fmt.Sprintf("Stmt %v (%s)", s.neg, s.c.coq())
 }
 
-func listSrc(l []stmtN, sep string) string {
+func ListSrc(l []StmtN, sep string) string {
 	ss := make([]string, len(l))
 	for i, s := range l {
-		ss[i] = s.src()
+		ss[i] = s.Src()
 	}
 	return strings.Join(ss, sep)
 }
-func listCoq(l []stmtN) string {
+func ListCoq(l []StmtN) string {
 	ss := make([]string, len(l))
 	for i, s := range l {
-		ss[i] = s.coq()
+		ss[i] = s.Coq()
 	}
 	return "[" + strings.Join(ss, ";") + "]"
 }
@@ -113,19 +113,19 @@ func (c callN) coq() string {
 	return fmt.Sprintf("CCall %s [%s]", c.ws[0].coq(), strings.Join(ss, ";"))
 }
 
-type blockN struct{ l []stmtN }
+type blockN struct{ l []StmtN }
 
-func (b blockN) src() string { return "{ " + listSrc(b.l, "; ") + "; }" }
-func (b blockN) coq() string { return "CBlock " + listCoq(b.l) }
+func (b blockN) src() string { return "{ " + ListSrc(b.l, "; ") + "; }" }
+func (b blockN) coq() string { return "CBlock " + ListCoq(b.l) }
 
-type subN struct{ l []stmtN }
+type subN struct{ l []StmtN }
 
-func (b subN) src() string { return "( " + listSrc(b.l, "; ") + " )" }
-func (b subN) coq() string { return "CSub " + listCoq(b.l) }
+func (b subN) src() string { return "( " + ListSrc(b.l, "; ") + " )" }
+func (b subN) coq() string { return "CSub " + ListCoq(b.l) }
 
 type binN struct {
 	and  bool
-	x, y stmtN
+	x, y StmtN
 }
 
 func (b binN) src() string {
@@ -133,26 +133,26 @@ func (b binN) src() string {
 	if b.and {
 		op = " && "
 	}
-	return b.x.src() + op + b.y.src()
+	return b.x.Src() + op + b.y.Src()
 }
 func (b binN) coq() string {
 	k := "COr"
 	if b.and {
 		k = "CAnd"
 	}
-	return fmt.Sprintf("%s (%s) (%s)", k, b.x.coq(), b.y.coq())
+	return fmt.Sprintf("%s (%s) (%s)", k, b.x.Coq(), b.y.Coq())
 }
 
 type ifN struct {
-	c, t []stmtN
+	c, t []StmtN
 	e    *ifN // else part: c == nil means plain else
 }
 
 func (n ifN) srcTail() string {
-	s := listSrc(n.c, "; ") + "; then " + listSrc(n.t, "; ") + "; "
+	s := ListSrc(n.c, "; ") + "; then " + ListSrc(n.t, "; ") + "; "
 	if n.e != nil {
 		if len(n.e.c) == 0 {
-			s += "else " + listSrc(n.e.t, "; ") + "; "
+			s += "else " + ListSrc(n.e.t, "; ") + "; "
 		} else {
 			s += "elif " + n.e.srcTail()
 		}
@@ -165,12 +165,12 @@ func (n ifN) coq() string {
 	if n.e != nil {
 		e = "(Some (" + n.e.coq() + "))"
 	}
-	return fmt.Sprintf("CIf %s %s %s", listCoq(n.c), listCoq(n.t), e)
+	return fmt.Sprintf("CIf %s %s %s", ListCoq(n.c), ListCoq(n.t), e)
 }
 
 type whileN struct {
 	until bool
-	c, b  []stmtN
+	c, b  []StmtN
 }
 
 func (n whileN) src() string {
@@ -178,16 +178,16 @@ func (n whileN) src() string {
 	if n.until {
 		k = "until "
 	}
-	return k + listSrc(n.c, "; ") + "; do " + listSrc(n.b, "; ") + "; done"
+	return k + ListSrc(n.c, "; ") + "; do " + ListSrc(n.b, "; ") + "; done"
 }
 func (n whileN) coq() string {
-	return fmt.Sprintf("CWhile %v %s %s", n.until, listCoq(n.c), listCoq(n.b))
+	return fmt.Sprintf("CWhile %v %s %s", n.until, ListCoq(n.c), ListCoq(n.b))
 }
 
 type forN struct {
 	x     string
 	items []word
-	b     []stmtN
+	b     []StmtN
 }
 
 func (n forN) src() string {
@@ -195,14 +195,14 @@ func (n forN) src() string {
 	for i, w := range n.items {
 		ss[i] = " " + w.src()
 	}
-	return "for " + n.x + " in" + strings.Join(ss, "") + "; do " + listSrc(n.b, "; ") + "; done"
+	return "for " + n.x + " in" + strings.Join(ss, "") + "; do " + ListSrc(n.b, "; ") + "; done"
 }
 func (n forN) coq() string {
 	ss := make([]string, len(n.items))
 	for i, w := range n.items {
 		ss[i] = w.coq()
 	}
-	return fmt.Sprintf("CFor %s [%s] %s", cstr(n.x), strings.Join(ss, ";"), listCoq(n.b))
+	return fmt.Sprintf("CFor %s [%s] %s", cstr(n.x), strings.Join(ss, ";"), ListCoq(n.b))
 }
 
 type patN struct {
@@ -211,7 +211,7 @@ type patN struct {
 }
 type caseItem struct {
 	pats []patN
-	l    []stmtN
+	l    []StmtN
 }
 type caseN struct {
 	w     word
@@ -230,7 +230,7 @@ func (n caseN) src() string {
 				ps[i] = p.w.src()
 			}
 		}
-		sb.WriteString(strings.Join(ps, "|") + ") " + listSrc(it.l, "; ") + " ;; ")
+		sb.WriteString(strings.Join(ps, "|") + ") " + ListSrc(it.l, "; ") + " ;; ")
 	}
 	sb.WriteString("esac")
 	return sb.String()
@@ -246,23 +246,23 @@ func (n caseN) coq() string {
 				ps[j] = "PWord " + p.w.coq()
 			}
 		}
-		its[i] = "([" + strings.Join(ps, ";") + "]," + listCoq(it.l) + ")"
+		its[i] = "([" + strings.Join(ps, ";") + "]," + ListCoq(it.l) + ")"
 	}
 	return fmt.Sprintf("CCase %s [%s]", n.w.coq(), strings.Join(its, ";"))
 }
 
 type funcN struct {
 	name string
-	body stmtN
+	body StmtN
 }
 
-func (n funcN) src() string { return n.name + "() " + n.body.src() }
-func (n funcN) coq() string { return fmt.Sprintf("CFunc %s (%s)", cstr(n.name), n.body.coq()) }
+func (n funcN) src() string { return n.name + "() " + n.body.Src() }
+func (n funcN) coq() string { return fmt.Sprintf("CFunc %s (%s)", cstr(n.name), n.body.Coq()) }
 
 // ---------------------------------------------------------------------------------
 
-type gen struct {
-	r       *rand.Rand
+type Gen struct {
+	R       *rand.Rand
 	loopVar int  // fresh guard variables for while loops
 	inFunc  int  // index of the function being defined (0 = none): it may call only higher ones
 	inLoop  int  // syntactic loop depth (only to bias break/continue)
@@ -271,17 +271,17 @@ type gen struct {
 	ign     int  // syntactically inside a context where errexit is ignored (condition, !, left of && ||)
 	inCond  int  // inside the condition list of an if/while/until (no break/continue there)
 	canRet  bool // syntactically inside a function body and not inside a subshell of it
-	odd     bool // allow the constructs of the known classes (break 0, return outside function, ...)
+	Odd     bool // allow the constructs of the known classes (break 0, return outside function, ...)
 }
 
 var varNames = []string{"x", "y", "z", "v"}
 var funcNames = []string{"f", "g", "h"}
 var lits = []string{"a", "b", "c", "0", "1", "2", "3", "ab", "7", "10", "255", "256"}
 
-func (g *gen) pick(l []string) string { return l[g.r.IntN(len(l))] }
+func (g *Gen) pick(l []string) string { return l[g.R.IntN(len(l))] }
 
-func (g *gen) word() word {
-	switch g.r.IntN(10) {
+func (g *Gen) word() word {
+	switch g.R.IntN(10) {
 	case 0, 1, 2, 3:
 		return lit(g.pick(lits))
 	case 4, 5, 6:
@@ -295,10 +295,10 @@ func (g *gen) word() word {
 	}
 }
 
-func (g *gen) simple() node {
-	switch k := g.r.IntN(100); {
+func (g *Gen) simple() node {
+	switch k := g.R.IntN(100); {
 	case k < 30:
-		n := 1 + g.r.IntN(3)
+		n := 1 + g.R.IntN(3)
 		ws := []word{lit("echo")}
 		for i := 0; i < n; i++ {
 			ws = append(ws, g.word())
@@ -314,13 +314,13 @@ func (g *gen) simple() node {
 		return callN{[]word{lit(":")}}
 	case k < 68: // break / continue
 		name := "break"
-		if g.r.IntN(2) == 0 {
+		if g.R.IntN(2) == 0 {
 			name = "continue"
 		}
-		if g.inLoop == 0 && g.r.IntN(4) != 0 || g.inCond > 0 {
+		if g.inLoop == 0 && g.R.IntN(4) != 0 || g.inCond > 0 {
 			return callN{[]word{lit("false")}}
 		}
-		switch g.r.IntN(6) {
+		switch g.R.IntN(6) {
 		case 0, 1, 2:
 			return callN{[]word{lit(name)}}
 		case 3:
@@ -328,29 +328,29 @@ func (g *gen) simple() node {
 		case 4:
 			return callN{[]word{lit(name), lit("2")}}
 		default:
-			if g.odd {
+			if g.Odd {
 				return callN{[]word{lit(name), lit(g.pick([]string{"0", "3", "a", "99999999999999999999"}))}}
 			}
 			return callN{[]word{lit(name), lit("3")}}
 		}
 	case k < 76: // return
-		if !g.canRet && !(g.odd && g.r.IntN(3) == 0) {
+		if !g.canRet && !(g.Odd && g.R.IntN(3) == 0) {
 			return callN{[]word{lit("true")}}
 		}
-		if g.r.IntN(3) == 0 {
+		if g.R.IntN(3) == 0 {
 			return callN{[]word{lit("return")}}
 		}
 		return callN{[]word{lit("return"), lit(g.pick([]string{"0", "1", "3", "255", "256", "0"}))}}
 	case k < 81: // exit
-		if g.r.IntN(3) == 0 {
+		if g.R.IntN(3) == 0 {
 			return callN{[]word{lit("exit")}}
 		}
 		return callN{[]word{lit("exit"), lit(g.pick([]string{"0", "1", "4", "300"}))}}
 	case k < 86:
-		if g.ign > 0 && !g.odd {
+		if g.ign > 0 && !g.Odd {
 			return callN{[]word{lit("false")}}
 		}
-		if g.r.IntN(3) == 0 {
+		if g.R.IntN(3) == 0 {
 			return callN{[]word{lit("set"), lit("+e")}}
 		}
 		return callN{[]word{lit("set"), lit("-e")}}
@@ -359,7 +359,7 @@ func (g *gen) simple() node {
 		if lo >= len(funcNames) {
 			return callN{[]word{lit("false")}}
 		}
-		return callN{[]word{lit(funcNames[lo+g.r.IntN(len(funcNames)-lo)])}}
+		return callN{[]word{lit(funcNames[lo+g.R.IntN(len(funcNames)-lo)])}}
 	case k < 98:
 		return callN{[]word{lit("nosuch"), g.word()}}
 	default:
@@ -367,16 +367,16 @@ func (g *gen) simple() node {
 	}
 }
 
-func (g *gen) list(depth, max int) []stmtN {
-	n := 1 + g.r.IntN(max)
-	l := make([]stmtN, 0, n)
+func (g *Gen) list(depth, max int) []StmtN {
+	n := 1 + g.R.IntN(max)
+	l := make([]StmtN, 0, n)
 	for i := 0; i < n; i++ {
 		l = append(l, g.stmt(depth))
 	}
 	return l
 }
 
-func (g *gen) condList(depth, max int) []stmtN {
+func (g *Gen) condList(depth, max int) []StmtN {
 	g.inCond++
 	g.ign++
 	l := g.list(depth, max)
@@ -385,8 +385,8 @@ func (g *gen) condList(depth, max int) []stmtN {
 	return l
 }
 
-func (g *gen) stmt(depth int) stmtN {
-	neg := g.r.IntN(9) == 0
+func (g *Gen) stmt(depth int) StmtN {
+	neg := g.R.IntN(9) == 0
 	if neg {
 		g.ign++
 	}
@@ -395,13 +395,13 @@ func (g *gen) stmt(depth int) stmtN {
 		g.ign--
 	}
 	if _, isBin := c.(binN); isBin && neg {
-		c = blockN{[]stmtN{{false, c}}}
+		c = blockN{[]StmtN{{false, c}}}
 	}
-	return stmtN{neg, c}
+	return StmtN{neg, c}
 }
 
 // operand of && ||: a statement that prints unambiguously
-func (g *gen) operand(depth int, left bool) stmtN {
+func (g *Gen) operand(depth int, left bool) StmtN {
 	if left {
 		g.ign++
 	}
@@ -410,22 +410,22 @@ func (g *gen) operand(depth int, left bool) stmtN {
 		g.ign--
 	}
 	if _, isBin := s.c.(binN); isBin && !left {
-		s = stmtN{false, blockN{[]stmtN{s}}}
+		s = StmtN{false, blockN{[]StmtN{s}}}
 	}
 	// `f() { ..; } && x`: the interpreter's parser puts `&& x` inside the function body, bash does not
 	// (known finding funcdecl_followed_by_andor); only the "odd" programs keep that shape.
 	if _, isFn := s.c.(funcN); isFn {
-		s = stmtN{false, blockN{[]stmtN{s}}}
+		s = StmtN{false, blockN{[]StmtN{s}}}
 	}
 	return s
 }
 
-func (g *gen) cmd(depth int) node {
+func (g *Gen) cmd(depth int) node {
 	g.budget--
 	if depth <= 0 || g.budget <= 0 {
 		return g.simple()
 	}
-	switch k := g.r.IntN(100); {
+	switch k := g.R.IntN(100); {
 	case k < 38:
 		return g.simple()
 	case k < 44:
@@ -435,18 +435,23 @@ func (g *gen) cmd(depth int) node {
 		g.inLoop, g.canRet = 0, false
 		l := g.list(depth-1, 3)
 		g.inLoop, g.canRet = save, saveR
+		if !g.Odd { // (a negated statement directly in a subshell: known finding core_ANegatedInSubshell)
+			for i := range l {
+				l[i].neg = false
+			}
+		}
 		return subN{l}
 	case k < 60:
-		return binN{g.r.IntN(2) == 0, g.operand(depth-1, true), g.operand(depth-1, false)}
+		return binN{g.R.IntN(2) == 0, g.operand(depth-1, true), g.operand(depth-1, false)}
 	case k < 70:
 		n := ifN{c: g.condList(depth-1, 2), t: g.list(depth-1, 2)}
 		cur := &n
-		for g.r.IntN(3) == 0 && depth > 1 {
+		for g.R.IntN(3) == 0 && depth > 1 {
 			e := &ifN{c: g.condList(depth-1, 1), t: g.list(depth-1, 2)}
 			cur.e = e
 			cur = e
 		}
-		if g.r.IntN(2) == 0 {
+		if g.R.IntN(2) == 0 {
 			cur.e = &ifN{t: g.list(depth-1, 2)}
 		}
 		return n
@@ -455,29 +460,29 @@ func (g *gen) cmd(depth int) node {
 		//   wN=; while case "$wN" in aaa) false;; *) COND;; esac; do wN="$wN"a; BODY; done
 		g.loopVar++
 		wv := fmt.Sprintf("w%d", g.loopVar)
-		until := g.r.IntN(3) == 0
+		until := g.R.IntN(3) == 0
 		stopc, goc := "false", "true"
 		if until {
 			stopc, goc = "true", "false"
 		}
-		var condTail []stmtN
-		if g.r.IntN(2) == 0 {
+		var condTail []StmtN
+		if g.R.IntN(2) == 0 {
 			condTail = g.condList(depth-1, 1)
 		} else {
-			condTail = []stmtN{{false, callN{[]word{lit(goc)}}}}
+			condTail = []StmtN{{false, callN{[]word{lit(goc)}}}}
 		}
-		limit := strings.Repeat("a", 1+g.r.IntN(3))
-		guard := stmtN{false, caseN{word{{'v', wv}}, []caseItem{
-			{[]patN{{w: lit(limit)}}, []stmtN{{false, callN{[]word{lit(stopc)}}}}},
+		limit := strings.Repeat("a", 1+g.R.IntN(3))
+		guard := StmtN{false, caseN{word{{'v', wv}}, []caseItem{
+			{[]patN{{w: lit(limit)}}, []StmtN{{false, callN{[]word{lit(stopc)}}}}},
 			{[]patN{{any: true}}, condTail},
 		}}}
 		g.inLoop++
-		body := append([]stmtN{{false, assignN{wv, word{{'v', wv}, {'l', "a"}}}}}, g.list(depth-1, 3)...)
+		body := append([]StmtN{{false, assignN{wv, word{{'v', wv}, {'l', "a"}}}}}, g.list(depth-1, 3)...)
 		g.inLoop--
-		loop := whileN{until, []stmtN{guard}, body}
-		return blockN{[]stmtN{{false, assignN{wv, word{}}}, {false, loop}}}
+		loop := whileN{until, []StmtN{guard}, body}
+		return blockN{[]StmtN{{false, assignN{wv, word{}}}, {false, loop}}}
 	case k < 86:
-		n := g.r.IntN(4)
+		n := g.R.IntN(4)
 		items := make([]word, n)
 		for i := range items {
 			items[i] = g.word()
@@ -487,20 +492,20 @@ func (g *gen) cmd(depth int) node {
 		g.inLoop--
 		return forN{g.pick([]string{"i", "j", "x"}), items, b}
 	case k < 93:
-		n := 1 + g.r.IntN(3)
+		n := 1 + g.R.IntN(3)
 		items := make([]caseItem, n)
 		for i := range items {
-			np := 1 + g.r.IntN(2)
+			np := 1 + g.R.IntN(2)
 			pats := make([]patN, np)
 			for j := range pats {
-				if g.r.IntN(5) == 0 {
+				if g.R.IntN(5) == 0 {
 					pats[j] = patN{any: true}
 				} else {
 					pats[j] = patN{w: g.word()}
 				}
 			}
-			var l []stmtN
-			if g.r.IntN(8) != 0 {
+			var l []StmtN
+			if g.R.IntN(8) != 0 {
 				l = g.list(depth-1, 2)
 			}
 			items[i] = caseItem{pats, l}
@@ -511,30 +516,30 @@ func (g *gen) cmd(depth int) node {
 			return g.simple()
 		}
 		// define function number inFunc+1.. (it may only call higher-numbered ones)
-		idx := g.inFunc + g.r.IntN(len(funcNames)-g.inFunc)
+		idx := g.inFunc + g.R.IntN(len(funcNames)-g.inFunc)
 		save, saveL, saveR, saveC := g.inFunc, g.inLoop, g.canRet, g.inCond
 		g.inFunc, g.inLoop, g.canRet, g.inCond = idx+1, 0, true, 0
 		var body node
-		if g.r.IntN(6) == 0 {
+		if g.R.IntN(6) == 0 {
 			g.canRet = false
 			body = subN{g.list(depth-1, 3)}
 		} else {
 			body = blockN{g.list(depth-1, 3)}
 		}
 		g.inFunc, g.inLoop, g.canRet, g.inCond = save, saveL, saveR, saveC
-		return funcN{funcNames[idx], stmtN{false, body}}
+		return funcN{funcNames[idx], StmtN{false, body}}
 	}
 }
 
-func (g *gen) program() []stmtN {
+func (g *Gen) Program() []StmtN {
 	g.loopVar = 0
-	g.budget = 14 + g.r.IntN(30)
-	g.errexit = g.r.IntN(3) == 0
-	var l []stmtN
+	g.budget = 14 + g.R.IntN(30)
+	g.errexit = g.R.IntN(3) == 0
+	var l []StmtN
 	if g.errexit {
-		l = append(l, stmtN{false, callN{[]word{lit("set"), lit("-e")}}})
+		l = append(l, StmtN{false, callN{[]word{lit("set"), lit("-e")}}})
 	}
-	n := 2 + g.r.IntN(6)
+	n := 2 + g.R.IntN(6)
 	for i := 0; i < n; i++ {
 		l = append(l, g.stmt(3))
 	}
@@ -542,7 +547,7 @@ func (g *gen) program() []stmtN {
 }
 
 // all variable names a core program can touch (reported by the worker)
-func coreVars() []string {
+func CoreVars() []string {
 	vs := append([]string{}, varNames...)
 	vs = append(vs, "i", "j")
 	for i := 1; i <= 12; i++ {
